@@ -21,10 +21,10 @@ from vf import build, recs, graph, core
 # d4 unknown command 5 (first bytes); 80 81 82 85 aa b1 83 second bytes
 DEV_CONFIGS = [
     ("symbols",   ["sigma=10,c6,aa,c8,e8", "cap=4", "arb=31,aa", "send=2a,aa,c5"], True),
-    ("reset",     ["sigma=10,2a,c0,c8,80", "cap=4", "clk=1", "arb=31,aa", "distinct=1"], True),
+    ("reset",     ["sigma=10,2a,c0,c8,80", "cap=4", "clk=1", "arb=31,aa", "send=2a,c5", "distinct=1"], True),
     ("malformed", ["sigma=10,d4,80,c6,ec", "cap=4", "arb=31,aa"], True),
     ("info",      ["sigma=10,cc,81,82,c0", "cap=3", "info=00", "arb=31", "distinct=1"], True),
-    ("mix8",      ["sigma=10,c6,c8,e8,c0,ec,d4,81", "cap=3", "clk=1", "arb=31,aa", "distinct=1"], True),
+    ("mix8",      ["sigma=10,c6,c8,e8,c0,ec,d4,81", "cap=3", "clk=1", "arb=31,aa", "send=aa", "distinct=1"], True),
     ("symbols9",  ["sigma=10,2a,c6,aa,85,c8,b1,e8,83", "cap=4", "arb=31,aa", "send=2a,aa"], False),
     ("reset6",    ["sigma=10,2a,c0,c8,80,81", "cap=4", "clk=1", "arb=31,aa", "distinct=1"], False),
     ("reset7",    ["sigma=10,2a,c6,c8,e8,c0,81,80", "cap=4", "clk=1", "arb=31,aa", "distinct=1"], False),
